@@ -7,6 +7,7 @@ import Driver.Codec
 import Driver.Broker
 import Driver.Proto3
 import Driver.Stores
+import Driver.Clients
 open Driver
 
 structure DSt where
@@ -14,6 +15,7 @@ structure DSt where
   broker : BrokerD.St := {}
   proto3 : Proto3D.St := {}
   stores : StoresD.St := {}
+  clients : ClientsD.St := {}
 
 def dispatch (st : DSt) (line : String) : DSt × String :=
   let toks := (line.trimAscii.toString.splitOn " ").filter (· ≠ "")
@@ -28,6 +30,8 @@ def dispatch (st : DSt) (line : String) : DSt × String :=
       let (p, out) := Proto3D.step st.proto3 toks; ({ st with proto3 := p }, out)
     else if t.startsWith "s." || t.startsWith "j." then
       let (p, out) := StoresD.step st.stores toks; ({ st with stores := p }, out)
+    else if t.startsWith "a." then
+      let (p, out) := ClientsD.step st.clients toks; ({ st with clients := p }, out)
     else if t == "ping" then (st, "pong")
     else (st, "bad-op")
 
